@@ -522,7 +522,10 @@ func (s *sess) execTx(txAcc, sender, rcpt []byte, amount *big.Int, typ types.TxT
 	var res string
 	if verr := txe.Validate(bi.ChainIdHash(), false); verr != nil {
 		if typ != types.TxType_GOVERNANCE || string(rcpt) != types.AergoSystem || verr != types.ErrTxInvalidPayload {
-			panic(fmt.Sprintf("generator: transaction not admitted: %v (%s)", verr, payload))
+			// the admission rules refuse the generated transaction (e.g. an amount above types.MaxAER after the staking minimum
+			// was voted up to the cap): it never reaches execution; no operation is recorded
+			s.run.Count("generator:not-admitted:" + verr.Error())
+			return "skip"
 		}
 		s.run.Count("path:direct")
 		out, p := vh.Guard(func() string {
@@ -628,6 +631,9 @@ func (s *sess) stake(a *acct, amt *big.Int) {
 	pre := s.view
 	op := fmt.Sprintf("stake %s %d %s", hx(a.addr), s.h, amt)
 	res := s.sysTx(a, amt, `{"Name":"v1stake"}`)
+	if res == "skip" {
+		return
+	}
 	s.emit(op, res, res == "ok")
 	s.run.Count("stake:" + res)
 	post := s.view
@@ -660,6 +666,9 @@ func (s *sess) unstake(a *acct, amt *big.Int) {
 	pre := s.view
 	op := fmt.Sprintf("unstake %s %d %s", hx(a.addr), s.h, amt)
 	res := s.sysTx(a, amt, `{"Name":"v1unstake"}`)
+	if res == "skip" {
+		return
+	}
 	s.emit(op, res, res == "ok")
 	s.run.Count("unstake:" + res)
 	if s.dead {
@@ -749,6 +758,9 @@ func (s *sess) voteBP(a *acct, cands [][]byte) {
 	}
 	op := fmt.Sprintf("votebp %s %d %s", hx(a.addr), s.h, cs)
 	res := s.sysTx(a, new(big.Int), `{"Name":"v1voteBP","Args":[`+joinC(enc)+`]}`)
+	if res == "skip" {
+		return
+	}
 	if aligned%39 != 0 {
 		// not modelled: the model answers with this token and the session stops being compared
 		s.not39 = true
@@ -827,6 +839,9 @@ func (s *sess) voteDAO(a *acct, id string, args []string) {
 	}
 	op := fmt.Sprintf("votedao %s %d %s %s", hx(a.addr), s.h, id, as)
 	res := s.sysTx(a, new(big.Int), `{"Name":"v1voteDAO","Args":[`+joinC(enc)+`]}`)
+	if res == "skip" {
+		return
+	}
 	s.emit(op, res, res == "ok")
 	s.run.Count("votedao:" + res)
 	if s.dead {
@@ -851,6 +866,9 @@ func (s *sess) transfer(from *acct, to []byte, amt *big.Int) {
 	pre := s.view
 	op := fmt.Sprintf("transfer %s %s %s", hx(from.addr), hx(to), amt)
 	res := s.execTx(from.addr, from.addr, to, amt, types.TxType_TRANSFER, "")
+	if res == "skip" {
+		return
+	}
 	if res == "ok" && bytes.Equal(to, sysAddr) && amt.Sign() > 0 {
 		s.sysXfer = true
 	}
@@ -880,6 +898,9 @@ func (s *sess) nameCreate(a *acct, n string, amt *big.Int) {
 	pre := s.view
 	op := fmt.Sprintf("namecreate %s %s %s", hx(a.addr), hx([]byte(n)), amt)
 	res := s.execTx(a.addr, a.addr, nmAddr, amt, types.TxType_GOVERNANCE, `{"Name":"v1createName","Args":["`+n+`"]}`)
+	if res == "skip" {
+		return
+	}
 	s.emit(op, res, res == "ok")
 	s.run.Count("namecreate:" + res)
 	post := s.view
@@ -916,6 +937,9 @@ func (s *sess) nameUpdate(txAcc []byte, sender *acct, n string, to string, toRaw
 	pre := s.view
 	op := fmt.Sprintf("nameupdate %s %s %s %s %s", hx(txAcc), hx(sender.addr), hx([]byte(n)), hx(toRaw), amt)
 	res := s.execTx(txAcc, sender.addr, nmAddr, amt, types.TxType_GOVERNANCE, `{"Name":"v1updateName","Args":["`+n+`","`+to+`"]}`)
+	if res == "skip" {
+		return
+	}
 	s.emit(op, res, res == "ok")
 	s.run.Count("nameupdate:" + res)
 	post := s.view
@@ -941,6 +965,9 @@ func (s *sess) setOwner(by *acct, owner *acct) {
 	pre := s.view
 	op := fmt.Sprintf("setowner %s", hx(owner.addr))
 	res := s.execTx(by.addr, by.addr, nmAddr, new(big.Int), types.TxType_GOVERNANCE, `{"Name":"v1setOwner","Args":["`+types.EncodeAddress(owner.addr)+`"]}`)
+	if res == "skip" {
+		return
+	}
 	s.emit(op, res, res == "ok")
 	s.run.Count("setowner:" + res)
 	post := s.view
@@ -1268,6 +1295,18 @@ func (s *sess) pickH(rng *vh.Rng) uint64 {
 
 // large: six to eight accounts in ONE voting-power bucket, a pool of more than thirty candidates, votes naming up to the
 // admitted maximum of 30 (serialised vote records and list elements longer than 255 bytes).
+func dedup(cs [][]byte) [][]byte {
+	var out [][]byte
+	seen := map[string]bool{}
+	for _, c := range cs {
+		if !seen[string(c)] {
+			seen[string(c)] = true
+			out = append(out, c)
+		}
+	}
+	return out
+}
+
 func (s *sess) randomSession(steps int, tiePool bool, large bool) {
 	rng := s.rng
 	na := 2 + rng.Intn(4)
@@ -1327,6 +1366,18 @@ func (s *sess) randomSession(steps int, tiePool bool, large bool) {
 		default:
 			return coins(int64(10000 + 1000*rng.Intn(30)))
 		}
+	}
+	if large {
+		// every account becomes a voter first: six to eight entries in one bucket, in the order of their random ids
+		for _, a := range s.accts {
+			s.stake(a, coins(int64(10000*(1+rng.Intn(2)))))
+			var cs [][]byte
+			for j := 0; j < 1+rng.Intn(3); j++ {
+				cs = append(cs, s.cands[(rng.Intn(len(s.cands))+j)%len(s.cands)])
+			}
+			s.voteBP(a, dedup(cs))
+		}
+		s.endBlock(s.h + D)
 	}
 	for i := 0; i < steps && !s.dead; i++ {
 		a := s.accts[rng.Intn(len(s.accts))]
